@@ -10,7 +10,7 @@ unsigned long s_size() { return sizeof(Processor); }
 void *s_field(Processor *p, int k) {
   switch (k) {
     case 0: return &p->pc; case 1: return &p->areg; case 2: return &p->breg; case 3: return &p->oreg;
-    case 4: return &p->instr; case 5: return p->memory.data(); case 6: return &p->io; case 7: return &p->truncateInputs;
+    case 4: return &p->instr; case 5: return &p->memory[0]; case 6: return &p->io; case 7: return &p->truncateInputs;
     case 8: return &p->running; case 9: return &p->tracing; case 10: return &p->exitCode; case 11: return &p->lastPC;
     case 12: return &p->cycles; case 13: return &p->maxCycles; case 14: return &p->instrEnum; case 15: return &p->debugInfo;
     case 16: return &p->debugInfoMap; case 17: return (void*)&p->out;
@@ -84,7 +84,7 @@ int main() {
       }
       std::istringstream in(inbytes); std::ostringstream out;
       auto *p = new Processor(in, out, nsteps);
-      p->memory.fill(0);
+      for (unsigned long i = 0; i < Processor::MEMORY_SIZE_WORDS; i++) p->memory[i] = 0;
       p->exitCode = 0;
       p->setTruncateInputs(trunc);
       for (auto &m : mem) p->memory[m.first] = m.second;
